@@ -21,7 +21,7 @@ LEVEL = 'model_checking'
 PREFORK_WORLD = {}
 RULE = ('state = (stream, mode, addressing, option vector, representation, segment); every vector of the stated '
         'deviation levels x every enumerated segment; non-trivial = a 200 media segment that was decoded and '
-        'compared with the stored bytes (distinct by vector, representation, source segment)')
+        'compared with the stored bytes (distinct by vector, representation, source segment); history pairs: state = (session a, session b), every ordered pair, each in a process forked for it')
 ASSUMPTIONS = [
     'stored payload = mdat body of the k-th moof/mdat pair found by the independent scan of the stored file',
     'base for trun.data_offset / saio offsets: explicit base_data_offset, else the start of the enclosing moof',
